@@ -36,6 +36,15 @@ def forms(n, sols):
         return Grover(qlassf(src), n_matching=len(sols)), src
     out += [("cmp", f_cmp), ("dnf", f_dnf)]
     if len(sols) == 1:
+        # g(x) == y with y FALSY (0 / False) as well: the target must not be mistaken for "no target"
+        def f_orc0():
+            src = f"def g(a: Qint[{n}]) -> Qint[{n}]:\n\treturn a ^ {sols[0]}"
+            return Grover(qlassf(src), 0, n_matching=1), src + "   # Grover(g, element_to_search=0)"
+
+        def f_orcF():
+            src = c16.cmp_source("pred", n, [x for x in range(1 << n) if x != sols[0]])
+            return Grover(qlassf(src), False, n_matching=1), src + "   # Grover(pred, element_to_search=False)"
+        out += [("oraclize-zero", f_orc0)] + ([("oraclize-False", f_orcF)] if n <= 3 else [])
         k = (sols[0] * 3 + 1) % (1 << n)
 
         def f_orc():
@@ -134,9 +143,9 @@ def run(tier, only=None):
                 combos = r.sample(combos, 40 if tier == "quick" else 400)
             for c in combos:
                 jobs.append((n, list(c)))
-    for _ in range(6 if tier == "quick" else 60):
-        m = r.choice((1, 2, 4, 8))
-        jobs.append((5, sorted(r.sample(range(32), m))))
+    for m in (1, 2, 3, 4, 5, 8):
+        for _ in range(1 if tier == "quick" else 8):
+            jobs.append((5, sorted(r.sample(range(32), m))))
     rep.add(run_pool(job, jobs))
     rep.under_contract(Grover.__init__, Grover.decode_output, Grover.output_qubits.fget)
     rep.rule = "one evaluation = one (solution set, syntactic form): real Grover constructor, exact amplitude simulation from |0..0>, exact rational output distribution; distinct = distinct predicate text"
